@@ -115,6 +115,12 @@ Theorem eig_all m (w : nat -> R) V wh o : (1 <= m)%nat -> slice_out (Z.of_nat m)
 Proof. intros H1 E. unfold slice_out in E. cbn [ek] in E. rewrite sel_all in E by auto. injection E as <-.
   cbn [take ek ew eV]. rewrite seq_length. repeat split; intros; rewrite seq_nth by auto; reflexivity. Qed.
 
+(* eigmax / eigmin = eig(A, 1, LM|SM)[0][0]: the last / first entry of the spectrum the rule slices *)
+Theorem eigmax_last m (w : nat -> R) V : (1 <= m)%nat -> first_val (slice_out 1 LM (mkeout m w V)) = Some (w (m - 1)%nat).
+Proof. intros H. unfold slice_out. cbn [ek]. change 1%Z with (Z.of_nat 1). rewrite sel_LM by lia. cbn [first_val take ew seq nth]. reflexivity. Qed.
+Theorem eigmin_first m (w : nat -> R) V : (1 <= m)%nat -> first_val (slice_out 1 SM (mkeout m w V)) = Some (w 0%nat).
+Proof. intros H. unfold slice_out. cbn [ek]. change 1%Z with (Z.of_nat 1). rewrite sel_SM by lia. cbn [first_val take ew seq nth]. reflexivity. Qed.
+
 (* ---------- argsort ---------- *)
 Section Argsort.
 Variable leb : R -> R -> bool.
@@ -186,15 +192,15 @@ Proof. intros H. replace n with (i + (1 + (n - i - 1)))%nat at 1 by lia. rewrite
 Definition SolveSpec (solve : nat -> fm -> (nat -> R) -> (nat -> R)) (n : nat) (U : fm) : Prop :=
   forall i, (i < n)%nat -> forall r, (r < i)%nat ->
     sum i (fun c => tri_sys U i r c * solve i (tri_sys U i) (tri_rhs U i) c) = tri_rhs U i r.
-Theorem tri_eigvecs_spec solve n U : upper n U -> SolveSpec solve n U -> EigSpec n n U (fun i => U i i) (tri_eigvecs solve U).
+Theorem tri_eigvecs_spec solve n U : upper n U -> SolveSpec solve n U -> EigSpec n n U (fun i => U i i) (tri_eigvecs solve (fun x => x) U).
 Proof. intros HU HS. split.
   - intros r i Hr Hi. rewrite mmul_dg_r by auto. unfold mmul. rewrite (sum_split3 n i) by auto.
     set (x := solve i (tri_sys U i) (tri_rhs U i)).
-    assert (E1 : sum i (fun l => U r l * tri_eigvecs solve U l i) = sum i (fun l => U r l * x l)).
+    assert (E1 : sum i (fun l => U r l * tri_eigvecs solve (fun x => x) U l i) = sum i (fun l => U r l * x l)).
     { apply sum_ext; intros l Hl. unfold tri_eigvecs. destruct (Nat.ltb_spec l i); [reflexivity|lia]. }
-    assert (E2 : tri_eigvecs solve U i i = r1).
+    assert (E2 : tri_eigvecs solve (fun x => x) U i i = r1).
     { unfold tri_eigvecs. rewrite Nat.ltb_irrefl. apply delta_refl. }
-    assert (E3 : sum (n - i - 1) (fun c => U r (i + 1 + c)%nat * tri_eigvecs solve U (i + 1 + c)%nat i) = r0).
+    assert (E3 : sum (n - i - 1) (fun c => U r (i + 1 + c)%nat * tri_eigvecs solve (fun x => x) U (i + 1 + c)%nat i) = r0).
     { rewrite (sum_ext _ _ (fun _ => r0)); [apply sum_zero|]. intros c Hc. unfold tri_eigvecs.
       destruct (Nat.ltb_spec (i + 1 + c) i); [lia|]. rewrite delta_ne by lia. ring. }
     rewrite E1, E2, E3. unfold tri_eigvecs. destruct (Nat.ltb_spec r i) as [Hlt|Hge].
@@ -236,12 +242,12 @@ Proof. intros HU Hdist i Hi r Hr. apply usolve_spec; auto.
 (* Triangular rule on an UPPER triangular matrix with distinct diagonal: eigenpairs (the code calls the routine
    compute_lower_triangular_eigvecs and applies it to lower ones too: see C10_tri_lower_refuted) *)
 Theorem eig_tri_pairs leb n U k wh o : upper n U -> (forall a b, (a < b)%nat -> (b < n)%nat -> U a a <> U b b) ->
-  eig_tri leb usolve n U k wh = Some o -> EigPairs n U o.
+  eig_tri leb usolve (fun x => x) n U k wh = Some o -> EigPairs n U o.
 Proof. intros HU Hd E. unfold eig_tri in E. eapply slice_pairs; [|exact E]. apply take_pairs.
   - apply EigSpec_pairs. apply tri_eigvecs_spec; [exact HU|apply usolve_SolveSpec; assumption].
   - intros x Hx. cbn [ek]. apply (Permutation_in _ (argsort_perm leb n _)) in Hx. apply in_seq in Hx. lia. Qed.
 Theorem eig_tri_pairs_oracle leb solve n U k wh o : upper n U -> SolveSpec solve n U ->
-  eig_tri leb solve n U k wh = Some o -> EigPairs n U o.
+  eig_tri leb solve (fun x => x) n U k wh = Some o -> EigPairs n U o.
 Proof. intros HU HS E. unfold eig_tri in E. eapply slice_pairs; [|exact E]. apply take_pairs.
   - apply EigSpec_pairs. apply tri_eigvecs_spec; assumption.
   - intros x Hx. cbn [ek]. apply (Permutation_in _ (argsort_perm leb n _)) in Hx. apply in_seq in Hx. lia. Qed.
